@@ -69,11 +69,11 @@ func nameBytes(rng *Rng, n int) []byte {
 }
 
 type c01Obj struct {
-	tag    int
-	args   [][]byte
-	mk     func() io.Reader // fresh encoder object (nil: plain function, bytes in enc)
-	enc    func() []byte    // for function-style encoders
-	nonTrivialVar bool      // has a non-empty variable-length part
+	tag           int
+	args          [][]byte
+	mk            func() io.Reader // fresh encoder object (nil: plain function, bytes in enc)
+	enc           func() []byte    // for function-style encoders
+	nonTrivialVar bool             // has a non-empty variable-length part
 }
 
 func arr2(b []byte) (a [2]byte) { copy(a[:], b); return }
@@ -123,7 +123,9 @@ func genUser(rng *Rng) c01Obj {
 	id, icon, flags := rng.Bytes(2), rng.Bytes(2), rng.Bytes(2)
 	name := dataBytes(rng, pickLen(rng, 3000))
 	return c01Obj{tag: 3, args: [][]byte{id, icon, flags, name},
-		mk:            func() io.Reader { return &hotline.User{ID: arr2(id), Icon: append([]byte{}, icon...), Flags: append([]byte{}, flags...), Name: string(name)} },
+		mk: func() io.Reader {
+			return &hotline.User{ID: arr2(id), Icon: append([]byte{}, icon...), Flags: append([]byte{}, flags...), Name: string(name)}
+		},
 		nonTrivialVar: len(name) > 0}
 }
 
